@@ -9,6 +9,7 @@ import (
 	"pault.ag/go/debian/control"
 	"pault.ag/go/debian/dependency"
 	"pault.ag/go/debian/version"
+	"runtime"
 	"strconv"
 	"strings"
 	"sync"
@@ -80,6 +81,55 @@ var totalImpl = map[string]core.Adapter{}
 
 func init() {
 	totalImpl["law-concurrent"] = lawConcurrent
+	// law: what changelog.Parse makes of a text does not depend on the process's local time zone.
+	// args: text (hex)
+	core.ExclusiveOps["law-clzone"] = true
+	totalImpl["law-clzone"] = func(a []string) string {
+		text := core.MustUnHex(a[0])
+		defer func(l *time.Location) { time.Local = l }(time.Local)
+		var first string
+		for i, loc := range []*time.Location{time.UTC, time.FixedZone("EST", -5*3600), time.FixedZone("CET", 3600), time.FixedZone("PST", -8*3600)} {
+			time.Local = loc
+			got := clResult(changelog.Parse(strings.NewReader(text)))
+			if i == 0 {
+				first = got
+			} else if got != first {
+				return fmt.Sprintf("FAIL the result depends on the local zone: in UTC %s, in %s %s", clipStr(first, 300), loc, clipStr(got, 300))
+			}
+		}
+		return "ok"
+	}
+	// law: Unmarshal of an index into a slice gives the same entries and the same error for the same
+	// bytes on every call and with any number of processors.  args: kind, text (hex)
+	core.ExclusiveOps["law-idxdet"] = true
+	totalImpl["law-idxdet"] = func(a []string) string {
+		text := core.MustUnHex(a[1])
+		outcome := func() string {
+			var n int
+			var err error
+			if a[0] == "BinaryIndex" {
+				l := []control.BinaryIndex{}
+				err = control.Unmarshal(&l, strings.NewReader(text))
+				n = len(l)
+			} else {
+				l := []control.SourceIndex{}
+				err = control.Unmarshal(&l, strings.NewReader(text))
+				n = len(l)
+			}
+			return fmt.Sprintf("%d entries, error: %v", n, err)
+		}
+		defer runtime.GOMAXPROCS(runtime.GOMAXPROCS(0))
+		first := outcome()
+		for _, procs := range []int{1, 4, 8, 16} {
+			runtime.GOMAXPROCS(procs)
+			for try := 0; try < 6; try++ {
+				if got := outcome(); got != first {
+					return fmt.Sprintf("FAIL same bytes, different outcome (GOMAXPROCS=%d): %q, then %q", procs, first, got)
+				}
+			}
+		}
+		return "ok"
+	}
 	// law: a parse that is waiting for more input (a pipe or socket with an incomplete stanza)
 	// does not keep independent parses from finishing.  args: the text parsed meanwhile (hex)
 	totalImpl["law-noblock"] = func(a []string) string {
@@ -333,6 +383,48 @@ func streamTotal(g *core.G) {
 				g.Emit("law-accessors", kind, core.Hex(text))
 			}
 		}
+		if ep.Op == "changelog" {
+			// dates that name their zone, unmutated (see the seed above)
+			for _, z := range []string{"EST", "CET", "UTC", "PST", "GMT", "AEST", "Z"} {
+				t := renderClEntry(r, genClEntry(r))
+				if i := strings.LastIndexAny(t, "+-"); i > 0 && i > len(t)-8 {
+					emitTotal(g, ep, t[:i]+z+"\n", &batch)
+					g.Emit("law-clzone", core.Hex(t[:i]+z+"\n"))
+				}
+			}
+		}
+		if strings.HasSuffix(ep.Name, "Index") {
+			// long indexes (70-200 stanzas) with two damaged stanzas far apart: the same error, the same
+			// (empty) result on every run and from every goroutine
+			for i := g.N(3, 20); i > 0; i-- {
+				var parts []string
+				for k := r.Range(70, 200); k > 0; k-- {
+					parts = append(parts, ep.Seed(r))
+				}
+				// the first damaged stanza is slow to fail (a long list, then a bad number late in the
+				// struct), the second fails at once; mostly adjacent and beyond the 64th
+				a := r.Range(64, len(parts)-2)
+				if r.Chance(1, 4) {
+					a = r.Intn(len(parts) - 1)
+				}
+				b := a + 1
+				if r.Chance(1, 3) {
+					b = r.Range(a+1, len(parts)-1)
+				}
+				if strings.Contains(ep.Name, "Binary") {
+					parts[a] = "Package: slow\nVersion: 1.0\nArchitecture: amd64\nTag: " + strings.Repeat("x::y, ", r.Range(500, 6000)) + "z\nSize: abc\n"
+				} else {
+					parts[a] = "Package: slow\nBinary: " + strings.Repeat("b, ", r.Range(500, 6000)) + "z\nVersion: 1.0\nArchitecture: " + strings.Repeat("amd64 ", 2000) + "\nFormat: 1.0\nFiles:\n zz\n"
+				}
+				parts[b] = "Package: fast\nVersion: _\n"
+				emitTotal(g, ep, strings.Join(parts, "\n"), &batch)
+				kind := "SourceIndex"
+				if strings.Contains(ep.Name, "Binary") {
+					kind = "BinaryIndex"
+				}
+				g.Emit("law-idxdet", kind, core.Hex(strings.Join(parts, "\n")))
+			}
+		}
 		// large inputs (4 KiB and 64 KiB)
 		for i := g.N(2, 12); i > 0; i-- {
 			emitTotal(g, ep, bigInput(r, ep.Seed(r)), &batch)
@@ -348,7 +440,7 @@ func init() {
 		ID: "C18", PropsModule: "GoDebian.Props.C18", TieModule: "GoDebian.Tie.Globals",
 		Facts: []string{"globals:inventory", "fingerprint:dependency.input.Peek", "fingerprint:dependency.input.Next"},
 		Streams: []core.Stream{{Name: "total", Gen: streamTotal,
-			Domain: "per entry point (version.Parse, ParseArch, ParseArchitectures, dependency.Parse, ParagraphReader, ParseDsc, ParseChanges, ParseBinaryIndex, ParseSourceIndex, Unmarshal into a probe struct, changelog.Parse): grammar-derived seeds, 1-3 random mutations of them (substitute / insert / delete / truncate / duplicate / splice / hostile bytes incl. NUL, CR, high bytes, UTF-8 blanks / a field once more with its name in other letter case), short hostile strings, and 4 KiB / 64 KiB inputs (one long token, thousands of separators, repeated seeds, random bytes); model vs implementation (a panic or a hang of the Go code shows up as such; 'err+value' = value together with an error); law-depindep: a parse result changed in place does not influence later parses; law-noblock: a reader waiting on a pipe does not stall independent parses; law-concurrent: every input parsed twice sequentially and by 16 goroutines in shuffled order, in a binary built with -race"}},
+			Domain: "per entry point (version.Parse, ParseArch, ParseArchitectures, dependency.Parse, ParagraphReader, ParseDsc, ParseChanges, ParseBinaryIndex, ParseSourceIndex, Unmarshal into a probe struct, changelog.Parse): grammar-derived seeds, 1-3 random mutations of them (substitute / insert / delete / truncate / duplicate / splice / hostile bytes incl. NUL, CR, high bytes, UTF-8 blanks / a field once more with its name in other letter case), short hostile strings, and 4 KiB / 64 KiB inputs (one long token, thousands of separators, repeated seeds, random bytes); model vs implementation (a panic or a hang of the Go code shows up as such; 'err+value' = value together with an error); long indexes (70-200 stanzas) with two damaged stanzas, a slow-failing one in front of a fast-failing one; law-idxdet: Unmarshal of such an index into a slice gives the same entry count and error on 25 calls under GOMAXPROCS 1/4/8/16; changelog dates that name their zone (EST, CET, ...) and law-clzone: the same result whatever time.Local is (UTC, EST, CET, PST); law-depindep: a parse result changed in place does not influence later parses; law-noblock: a reader waiting on a pipe does not stall independent parses; law-concurrent: every input parsed twice sequentially and by 16 goroutines in shuffled order, in a binary built with -race"}},
 		Impl: totalImpl, TrustedBase: tb,
 		Readable: func(op string, a []string) string {
 			if op == "law-concurrent" {
